@@ -481,3 +481,72 @@ Example C04_config_premises_satisfiable :
     load ex_conf_cfg [] [(5, ex_obj6)] = LOk r /\ reload ex_conf_cfg [] 0 r = LOk r' /\
     save r' = save r /\ save r = [for_config c x].
 Proof. exact example_roundtrip. Qed.
+
+(** * Round 3: the registry-level configuration round trip
+    (Proofs/ClientConfigLoad.v) *)
+From AGH Require Import Proofs.ClientConfigLoad.
+
+(** For EVERY file the loader accepts: what forConfig writes is accepted at
+    the next start-up (for every value NewUID might return), the registry read
+    back has the same record and the same extra fields under every uid (all
+    per-client fields), it writes the same objects again, both registries
+    satisfy the index invariant, and every request (ClientID, address, DHCP
+    table, global settings) gets the same effective settings from both. *)
+Theorem C04_config_roundtrip : forall cfg known objs r g,
+  load cfg known objs = LOk r ->
+  exists r', reload cfg known g r = LOk r' /\ same_records r r' /\ save r' = save r /\
+             Inv (fst r) /\ Inv (fst r') /\
+             (forall dhcp id a s, apply_client_filtering (fst r) dhcp id a s =
+                                  apply_client_filtering (fst r') dhcp id a s).
+Proof. exact config_roundtrip. Qed.
+Print Assumptions C04_config_roundtrip.
+
+(** Saving, restarting and saving again, twice over, writes the same section. *)
+Theorem C04_config_save_stable : forall cfg known objs r g g',
+  load cfg known objs = LOk r ->
+  exists r' r'', reload cfg known g r = LOk r' /\ reload cfg known g' r' = LOk r'' /\
+                 save r'' = save r /\ save r' = save r.
+Proof. exact config_save_stable. Qed.
+Print Assumptions C04_config_save_stable.
+
+(** Loading what forConfig wrote never fails and stores exactly the saved
+    records, for every registry with the loader's invariant ([Good]: index
+    invariant, one entry per uid, every record validated, normalized and the
+    image of a file object). *)
+Theorem C04_config_load_saved_accepts : forall cfg known g r,
+  Good cfg known r ->
+  exists r', reload cfg known g r = LOk r' /\
+    forall u c, deref (fst r') u = Some c <-> In c (clients_by_name (fst r)) /\ c_uid c = u.
+Proof. exact load_saved_accepts. Qed.
+Print Assumptions C04_config_load_saved_accepts.
+
+Theorem C04_config_loaded_is_good : forall cfg known objs r,
+  load cfg known objs = LOk r -> Good cfg known r.
+Proof. exact load_good. Qed.
+Print Assumptions C04_config_loaded_is_good.
+
+(** The general acceptance lemma behind it: a list of valid, normalized
+    records with distinct fresh uids that share no name or identifier with each
+    other nor with the registry is loaded without error, and exactly these
+    records are added. *)
+Theorem C04_config_clash_free_accepted : forall cfg pcs i r0,
+  Inv (fst r0) ->
+  (forall p, In p pcs -> validate cfg (fst p) = EOk /\ normalize (fst p) = fst p) ->
+  NoDup (map (fun p => c_uid (fst p)) pcs) ->
+  (forall p, In p pcs -> deref (fst r0) (c_uid (fst p)) = None) ->
+  (forall p q, In p pcs -> In q pcs -> c_uid (fst p) <> c_uid (fst q) -> ~ shares (fst p) (fst q)) ->
+  (forall p u c', In p pcs -> deref (fst r0) u = Some c' -> ~ shares (fst p) c') ->
+  exists r', add_all cfg i pcs r0 = LOk r' /\
+    (forall u c, deref (fst r') u = Some c <->
+                 (exists x, In (c, x) pcs /\ c_uid c = u) \/ deref (fst r0) u = Some c) /\
+    (forall p, In p pcs -> extra_of r' (c_uid (fst p)) = snd p) /\
+    (forall u, (forall p, In p pcs -> c_uid (fst p) <> u) -> extra_of r' u = extra_of r0 u).
+Proof. exact add_all_accepts. Qed.
+Print Assumptions C04_config_clash_free_accepted.
+
+(** Premises satisfiable: a file of two clients (overlapping prefixes, a
+    ClientID, an 8-byte MAC, a section without ids) that the loader accepts. *)
+Example C04_config_roundtrip_premises_satisfiable :
+  exists r, load ex_conf_cfg [] [(5, ex_obj6); (0, ex_obj_b)] = LOk r /\
+            length (clients_by_name (fst r)) = 2%nat /\ Good ex_conf_cfg [] r.
+Proof. exact example_two_loaded. Qed.
